@@ -177,10 +177,44 @@ def _unlimit_stack():
             pass
 
 
-def impl_outcome(f):
-    """Run f() on the implementation; map the outcome to ('OK', value) / ('EXC', class name)."""
+class Timeout(Exception):
+    """an implementation call that does not return within its wall-clock limit"""
+
+
+def _alarm(signum, frame):
+    raise Timeout()
+
+
+class time_limit:
+    """with time_limit(s): ...  raises Timeout in the body after s seconds of wall clock.  When a limit is already running (nested
+    use) the outer one stays in charge."""
+
+    def __init__(self, seconds):
+        self.seconds = seconds
+        self.armed = False
+
+    def __enter__(self):
+        import signal
+        if signal.getitimer(signal.ITIMER_REAL)[0] == 0:
+            self.old = signal.signal(signal.SIGALRM, _alarm)
+            signal.setitimer(signal.ITIMER_REAL, self.seconds)
+            self.armed = True
+        return self
+
+    def __exit__(self, *exc):
+        import signal
+        if self.armed:
+            signal.setitimer(signal.ITIMER_REAL, 0)
+            signal.signal(signal.SIGALRM, self.old)
+        return False
+
+
+def impl_outcome(f, limit=20):
+    """Run f() on the implementation; map the outcome to ('OK', value) / ('EXC', class name).  A call that does not return within
+    `limit` seconds is the observation ('EXC', 'Timeout'), never a stuck check."""
     try:
-        return ('OK', f())
+        with time_limit(limit):
+            return ('OK', f())
     except RecursionError:
         return ('EXC', 'RecursionError')
     except Exception as e:  # noqa: BLE001
